@@ -1,4 +1,4 @@
 SPECIFICATION FairSpec
-CONSTANTS MaxThreads = 3 NC = 1 Jobs = 3 Ordered = FALSE MaxSpurious = 0 defaultInitValue = defaultInitValue
+CONSTANTS MaxThreads = 3 NC = 1 Jobs = 3 Ordered = FALSE MaxSpurious = 0 Mixed = FALSE defaultInitValue = defaultInitValue
 INVARIANTS ExactlyOnce NoDup InOrder Bounded
 PROPERTY Live
